@@ -6,6 +6,7 @@ package main
 //   mode bind (C16): listen addresses that cannot be bound; the daemon must report the failure and exit
 
 import (
+	"sync/atomic"
 	"bytes"
 	"fmt"
 	"net"
@@ -109,6 +110,63 @@ func daemonFwd(r *rng, n int) error {
 		time.Sleep(30 * time.Millisecond)
 		for _, u := range ups {
 			u.take()
+		}
+		if i%3 == 1 {
+			// a burst of different questions while the forwarders are used for the first time and are slow to answer
+			// their probe: the queries queue inside the daemon, each must still reach exactly its own upstream
+			for _, u := range ups {
+				atomic.StoreInt32(&u.probeDelay, 120)
+			}
+			type bq struct {
+				q  []byte
+				qn string
+				n  int
+			}
+			var bqs []*bq
+			for k := 0; k < 16; k++ {
+				base := []string{"com", "example.net", "org"}[r.intn(3)]
+				if len(usedDoms) > 0 && r.coin(60) {
+					base = usedDoms[r.intn(len(usedDoms))]
+				}
+				name := fmt.Sprintf("b%d-%s.%s", k, string(randLabel(r, 4)), base)
+				q := msgSpec{id: r.intn(65536), flags: 0x0100, qs: [][]byte{question(encodeName(name), 1, 1)}}.encode()
+				bqs = append(bqs, &bq{q: q, qn: wireName(q[12:])})
+			}
+			var wgb sync.WaitGroup
+			for _, b := range bqs {
+				wgb.Add(1)
+				go func(b *bq) {
+					defer wgb.Done()
+					b.n = len(udpExchange(listen, b.q, 1200*time.Millisecond, time.Millisecond))
+				}(b)
+			}
+			wgb.Wait()
+			for _, u := range ups {
+				atomic.StoreInt32(&u.probeDelay, 0)
+			}
+			sawBy := map[string][]string{}
+			for _, u := range ups {
+				for _, s := range u.take() {
+					sawBy[s] = append(sawBy[s], itoa(u.id))
+				}
+			}
+			known := map[string]bool{}
+			for k, b := range bqs {
+				known[b.qn] = true
+				saw := sawBy[b.qn]
+				sort.Strings(saw)
+				out := strings.Join(saw, ",")
+				if out == "" {
+					out = "none"
+				}
+				emit(append(append([]string{"dfwd", fmt.Sprintf("%d.b%d", i, k), itoa(len(toks) / 2)}, toks...), sx(b.qn), "=>", out, itoa(b.n))...)
+			}
+			// anything an upstream saw that nobody asked: bytes of one question sent under another one's routing
+			for s, by := range sawBy {
+				if !known[s] {
+					emit(append(append([]string{"dfwd", fmt.Sprintf("%d.bx", i), itoa(len(toks) / 2)}, toks...), sx(s), "=>", "x"+strings.Join(by, ",x"), "0")...)
+				}
+			}
 		}
 		for k := 0; k < 4; k++ {
 			base := domPool[r.intn(len(domPool))]
